@@ -306,8 +306,8 @@ fn roundtrip_monitor<V: Val>(
     if q.kind() != p.kind() {
         problems.push(format!("match kind changed: {} -> {}", kind_name(p.kind()), kind_name(q.kind())));
     }
-    if q.num_states() != p.num_states() || q.heap_bytes() != p.heap_bytes() {
-        problems.push("num_states()/heap_bytes() changed".into());
+    if q.num_states() != p.num_states() {
+        problems.push(format!("num_states() changed: {} -> {}", p.num_states(), q.num_states()));
     }
     if problems.is_empty() {
         // behaviour (only meaningful if the kind survived; otherwise the calls would panic)
@@ -500,8 +500,8 @@ pub fn num_cases(ctx: &Ctx) -> u64 {
     match (ctx.mode, ctx.tier) {
         (Mode::Miri, _) => 30,
         (Mode::Asan | Mode::Tsan, _) => 1500,
-        (Mode::Native, Tier::Quick) => 6000,
-        (Mode::Native, Tier::Thorough) => 120_000,
+        (Mode::Native, Tier::Quick) => 45_000,
+        (Mode::Native, Tier::Thorough) => 600_000,
     }
 }
 
